@@ -156,8 +156,10 @@ pub fn d3_model_pattern(clusters: &[Vec<G>], cap: usize) -> Option<String> {
             let mut found = None;
             let n_children = nodes[cur].children.len();
             for k in (0..n_children).rev() {
-                let (ref v, _, emin, emax, tgt) = nodes[cur].children[k];
-                if *v != value {
+                let (_, ref ch, emin, emax, tgt) = nodes[cur].children[k];
+                // identity of an element is its list of characters/tokens, not the joined text:
+                // ["\\", "d"] (backslash, d) and ["\\d"] (the digit class) are different elements
+                if *ch != g.chars {
                     continue;
                 }
                 if emax == g.max.wrapping_sub(1) {
